@@ -1,11 +1,207 @@
+import OdmlModel.Model.Loader
 import Driver.Util
 import Driver.Loop
+import Std.Data.HashMap
 open Lean Drv
 
-namespace DrvC18
+/-
+JSON-lines driver of M-Loader (trusted glue, outside the proofs).
 
-/-- Stub: replaced when the model of C18 is built. -/
-def handle (_j : Json) : Except String Json := throw "model of C18 not built"
+  {"op":"run", "graph":[[url,"doc"|"missing"|"garbage",[inc...]]...], "cache":[[url,"fresh"|"stale"]...],
+   "prog":[["load"|"deferred"|"refresh", tpl, url]...], "picks":[tid...], "max":n}
+     -> steps (per transition: thread, events derived by diffing the shared tables), results,
+        tables, cache, picks actually taken, outcome
+  {"op":"explore", ..., "limit":n}
+     -> one schedule (pick list) per transition of the reachable state graph, #states, #transitions
+  {"op":"resolve", "graph":..., "url":u} -> the specification `resolve`
+-/
+namespace DrvC18
+open Loader
+
+structure World where
+  g : Url → Res
+  urls : List Url
+  cache0 : Url → CacheSt
+  prog : List Op
+
+def decKind (kind : String) (incs : List Nat) : Except String Res :=
+  match kind with
+  | "doc" => pure (.doc incs)
+  | "missing" => pure .missing
+  | "garbage" => pure .garbage
+  | _ => throw s!"bad kind {kind}"
+
+def decWorld (j : Json) : Except String World := do
+  let gr ← getArr j "graph"
+  let mut tab : List (Nat × Res) := []
+  for e in gr.toList do
+    match e with
+    | .arr #[u, kind, incs] =>
+      let u ← u.getNat?
+      let kind ← kind.getStr?
+      let incs ← (← incs.getArr?).toList.mapM (·.getNat?)
+      tab := tab ++ [(u, ← decKind kind incs)]
+    | _ => throw "bad graph entry"
+  let tab' := tab
+  let g : Url → Res := fun u => match tab'.find? (·.1 == u) with
+    | some (_, r) => r
+    | none => .missing
+  let mut ctab : List (Nat × CacheSt) := []
+  for e in (← getArr j "cache").toList do
+    match e with
+    | .arr #[u, st] =>
+      let u ← u.getNat?
+      let st ← st.getStr?
+      ctab := ctab ++ [(u, if st == "fresh" then .fresh else if st == "stale" then .stale else .absent)]
+    | _ => throw "bad cache entry"
+  let ctab' := ctab
+  let cache0 : Url → CacheSt := fun u => match ctab'.find? (·.1 == u) with
+    | some (_, c) => c
+    | none => .absent
+  let mut prog : List Op := []
+  for e in (← getArr j "prog").toList do
+    match e with
+    | .arr #[op, tpl, u] =>
+      let op ← op.getStr?
+      let tpl ← tpl.getBool?
+      let u ← u.getNat?
+      let k : Key := ⟨tpl, u⟩
+      match op with
+      | "load" => prog := prog ++ [.load k]
+      | "deferred" => prog := prog ++ [.deferred k]
+      | "refresh" => prog := prog ++ [.refresh k]
+      | _ => throw s!"bad op {op}"
+    | _ => throw "bad prog entry"
+  pure { g := g, urls := tab.map (·.1), cache0 := cache0, prog := prog }
+
+partial def encTree : Tree → Json
+  | .fail => Json.null
+  | .node u kids => jobj [("u", jnat u), ("k", jarr (kids.map encTree))]
+
+def encVal : Val → Json
+  | none => jobj [("obj", Json.null), ("doc", Json.null)]
+  | some o => jobj [("obj", jnat o.id), ("doc", encTree o.tree)]
+
+def tabName (k : Key) (which : String) : String := (if k.tpl then "tpl." else "term.") ++ which
+
+def encOp : Op → Json
+  | .load k => jarr [jstr "load", jbool k.tpl, jnat k.url]
+  | .deferred k => jarr [jstr "deferred", jbool k.tpl, jnat k.url]
+  | .refresh k => jarr [jstr "refresh", jbool k.tpl, jnat k.url]
+
+def keysOf (w : World) : List Key :=
+  (w.urls.map fun u => (⟨false, u⟩ : Key)) ++ (w.urls.map fun u => (⟨true, u⟩ : Key))
+
+def nthreads (s : State) : Nat := s.threads.length
+
+def enabledSet (s : State) : List Nat :=
+  (List.range (nthreads s + 1)).filter fun t => enabled s t
+
+/-- Events of one transition, by diffing (same vocabulary as harness/sched.py). -/
+def events (w : World) (s s' : State) (t : Nat) : List Json := Id.run do
+  let mut ev : List Json := []
+  match stackOf s t with
+  | .join _ j :: _ => ev := ev ++ [jarr [jstr "join", jnat j]]
+  | _ => pure ()
+  if s'.sh.epoch != s.sh.epoch then
+    ev := ev ++ [jarr [jstr "clear", jstr "term.loaded", Json.null]]
+  for k in keysOf w do
+    match s.sh.loaded k, s'.sh.loaded k with
+    | none, some _ => ev := ev ++ [jarr [jstr "set", jstr (tabName k "loaded"), jnat k.url]]
+    | _, _ => pure ()
+    match s.sh.loading k, s'.sh.loading k with
+    | none, some j =>
+      ev := ev ++ [jarr [jstr "set", jstr (tabName k "loading"), jnat k.url], jarr [jstr "spawn", jnat j]]
+    | some _, none => ev := ev ++ [jarr [jstr "pop", jstr (tabName k "loading"), jnat k.url]]
+    | _, _ => pure ()
+  let exited := match t with
+    | 0 => s'.caller.isEmpty && s'.prog.isEmpty
+    | _ => (stackOf s' t).isEmpty
+  if exited then ev := ev ++ [jarr [jstr "exit"]]
+  return ev
+
+/-- The scheduler's rule: next listed pick that is enabled, else the lowest enabled thread. -/
+def choose (en : List Nat) : List Nat → Option (Nat × List Nat)
+  | [] => (en.head?).map fun t => (t, [])
+  | p :: ps => if en.contains p then some (p, ps) else choose en ps
+
+partial def runLoop (w : World) (s : State) (picks : List Nat) (fuel : Nat)
+    (steps : Array Json) (taken : Array Nat) : State × Array Json × Array Nat × String :=
+  let en := enabledSet s
+  if en.isEmpty then (s, steps, taken, if allDone s then "ok" else "deadlock")
+  else if fuel == 0 then (s, steps, taken, "steplimit")
+  else
+    match choose en picks with
+    | none => (s, steps, taken, "deadlock")
+    | some (t, picks') =>
+      let s' := step w.g s t
+      let st := jobj [("t", jnat t), ("ev", jarr (events w s s' t))]
+      runLoop w s' picks' (fuel - 1) (steps.push st) (taken.push t)
+
+def encState (w : World) (s : State) : List (String × Json) :=
+  let tab (tpl : Bool) : Json :=
+    let ks := w.urls.map fun u => (⟨tpl, u⟩ : Key)
+    jobj [("loaded", jarr (ks.filterMap fun k => (s.sh.loaded k).map fun v =>
+              jarr [jnat k.url, encVal v])),
+          ("loading", jarr (ks.filterMap fun k => (s.sh.loading k).map fun _ => jnat k.url))]
+  [("results", jarr (s.results.reverse.map fun r =>
+      jobj [("op", encOp r.op), ("val", encVal r.val), ("epoch", jnat r.epoch)])),
+   ("tables", jobj [("term", tab false), ("tpl", tab true)]),
+   ("cache", jarr (w.urls.map fun u => jarr [jnat u,
+      jstr (match s.sh.cache u with | .absent => "absent" | .fresh => "fresh" | .stale => "stale"),
+      jnat (s.sh.wcount u)])),
+   ("threads", jnat (nthreads s + 1)),
+   ("err", jbool s.sh.err)]
+
+/-- Canonical text of a state over the finite key universe (for state merging). -/
+def stateKey (w : World) (s : State) : String :=
+  let ks := keysOf w
+  toString (repr (ks.map fun k => (s.sh.loaded k, s.sh.loading k),
+                  w.urls.map fun u => (s.sh.cache u, s.sh.wcount u),
+                  s.sh.reload, s.sh.nextId, s.sh.epoch, s.sh.err,
+                  s.caller, s.prog, s.results, s.threads))
+
+partial def explore (w : World) (limit : Nat) (queue : Array (State × List Nat))
+    (seen : Std.HashMap String Unit) (scheds : Array (List Nat)) (i : Nat) (ntrans : Nat) :
+    Array (List Nat) × Nat × Nat × Bool :=
+  if h : i < queue.size then
+    let (s, path) := queue[i]
+    let en := enabledSet s
+    let (queue', seen', scheds', ntrans') := en.foldl (init := (queue, seen, scheds, ntrans))
+      fun (q, sn, sc, nt) t =>
+        let s' := step w.g s t
+        let key := stateKey w s'
+        let p := path ++ [t]
+        if sn.contains key then (q, sn, sc.push p, nt + 1)
+        else (q.push (s', p), sn.insert key (), sc.push p, nt + 1)
+    if seen'.size > limit then (scheds', seen'.size, ntrans', false)
+    else explore w limit queue' seen' scheds' (i + 1) ntrans'
+  else (scheds, seen.size, ntrans, true)
+
+def handle (j : Json) : Except String Json := do
+  let op ← getStr j "op"
+  match op with
+  | "run" =>
+    let w ← decWorld j
+    let picks ← (← getArr j "picks").toList.mapM (·.getNat?)
+    let fuel := (getNat j "max").toOption.getD 4000
+    let s0 := init w.cache0 w.prog
+    let (s, steps, taken, outcome) := runLoop w s0 picks fuel #[] #[]
+    pure (jobj ([("outcome", jstr outcome), ("steps", Json.arr steps),
+                 ("picks", jarr (taken.toList.map jnat))] ++ encState w s))
+  | "explore" =>
+    let w ← decWorld j
+    let limit := (getNat j "limit").toOption.getD 20000
+    let s0 := init w.cache0 w.prog
+    let seen : Std.HashMap String Unit := (Std.HashMap.emptyWithCapacity 1024).insert (stateKey w s0) ()
+    let (scheds, nstates, ntrans, complete) := explore w limit #[(s0, [])] seen #[] 0 0
+    pure (jobj [("schedules", jarr (scheds.toList.map fun p => jarr (p.map jnat))),
+                ("states", jnat nstates), ("transitions", jnat ntrans), ("complete", jbool complete)])
+  | "resolve" =>
+    let w ← decWorld j
+    let u ← getNat j "url"
+    pure (encTree (resolveF w.g (w.urls.length + 1) u))
+  | _ => throw s!"unknown op {op}"
 
 end DrvC18
 
